@@ -301,6 +301,10 @@ Alphabet ==
           MAdd("A", "h", "Bool", D1("null", TRUE), "z"), MAdd("A", "h", "Bool", EmptyDict, "z"),
           MAdd("A", "h", "Char", D2("max_length", 10, "null", TRUE), "z"),
           MAdd("A", "h", "Decimal", D3("max_digits", 6, "decimal_places", 2, "null", TRUE), "z"),
+          \* a string initial value with a percent sign and quotes in it, on a new column and to fill NULLs
+          MAdd("A", "h", "Char", D1("max_length", 10), "p"),
+          MAdd("A", "h", "Char", D2("max_length", 10, "null", TRUE), None),
+          MChg("A", "h", None, D1("null", FALSE), "p"),
           MChg("A", "g", "BigInt", D1("null", TRUE), None),
           MChg("A", "h", None, D1("null", TRUE), None),
           MChg("A", "h", None, D1("db_index", TRUE), None),
